@@ -320,16 +320,24 @@ def evalHQ (interp : XR → XR → XR → XR) : HQRes XR → XR
   | .expo l u f => interp l u f
 
 /-- consistent native histogram: finite counts ≥ 0 that add up to Count > 0, ascending disjoint buckets,
-    the reverse iterator is the reverse of the forward one, Sum is not NaN -/
+    the reverse iterator is the reverse of the forward one.  Sum may be anything, NaN included: with the repair of
+    F-C32-1 in /repo (`repoFixedC32F1 = true`) the theorems no longer need `Sum ≠ NaN`; for the code as found they
+    do (`NanSumOk false`, `histQuantile_nan_sum_witness`). -/
 def ConsistentHist (h : NHist XR) : Prop :=
-  h.rev = h.fwd.reverse ∧ h.sum ≠ .nan ∧
+  h.rev = h.fwd.reverse ∧
   (∃ N, h.count = .fin N ∧ 0 < N ∧ sumCounts (.fin 0) h.fwd = .fin N) ∧
   (∀ b ∈ h.fwd, ∃ l u c, b.lower = .fin l ∧ b.upper = .fin u ∧ b.count = .fin c ∧ l ≤ u ∧ 0 ≤ c) ∧
   h.fwd.Pairwise (fun a b => XR.le a.upper b.lower = true)
 
 theorem ConsistentHist.rhist {h : NHist XR} (C : ConsistentHist h) :
     ∃ L N, RHist h L N ∧ L.Pairwise (fun a b => a.u ≤ b.l) :=
-  rhist_of h C.1 C.2.1 C.2.2.1 C.2.2.2.1 C.2.2.2.2
+  rhist_of h C.1 C.2.1 C.2.2.1 C.2.2.2
+
+/-- what the variant `fixed` of the code needs about Sum: nothing when F-C32-1 is repaired, `Sum ≠ NaN` otherwise -/
+def NanSumOk (fixed : Bool) (h : NHist XR) : Prop := fixed = true ∨ h.sum ≠ .nan
+
+/-- /repo is the repaired variant, so `NanSumOk` holds for every histogram -/
+theorem nanSumOk_repo (h : NHist XR) : NanSumOk repoFixedC32F1 h := Or.inl rfl
 
 theorem evalHQ_eq_evalR (interp : XR → XR → XR → XR) (r : HQRes XR) : evalHQ interp r = evalR interp r := by
   cases r <;> rfl
@@ -340,16 +348,24 @@ def histQuantile_mono_full : Prop :=
     ∀ q1 q2 : Rat, 0 ≤ q1 → q1 ≤ q2 → q2 ≤ 1 →
       XR.leOrNaN (evalHQ interp (histogramQuantile (.fin q1) h)) (evalHQ interp (histogramQuantile (.fin q2) h))
 
-/-- Native quantiles never decrease with q — and are never NaN: for every consistent histogram (Sum not NaN:
-    F-C32-1; all bounds finite: F-C32-3) and every monotone in-bucket interpolant, at the bucket-iterator
-    level, ACROSS the switch from forward to reverse iteration at q = 1/2. -/
+/-- Native quantiles never decrease with q — and are never NaN — for BOTH variants of the code (`fixed = false`:
+    as found, needs Sum ≠ NaN, F-C32-1; `fixed = true`: repaired, any Sum): for every consistent histogram (all
+    bounds finite: F-C32-3) and every monotone in-bucket interpolant, at the bucket-iterator level, ACROSS the
+    switch from forward to reverse iteration at q = 1/2 (no switch when Sum is NaN). -/
+theorem histQuantileWith_mono (fixed : Bool) (interp : XR → XR → XR → XR) (h : NHist XR) (G : GoodInterp interp)
+    (C : ConsistentHist h) (hs : NanSumOk fixed h) (q1 q2 : Rat) (h0 : 0 ≤ q1) (h12 : q1 ≤ q2) (h1 : q2 ≤ 1) :
+    ∃ v1 v2, evalHQ interp (histogramQuantileWith fixed (.fin q1) h) = .fin v1 ∧
+      evalHQ interp (histogramQuantileWith fixed (.fin q2) h) = .fin v2 ∧ v1 ≤ v2 := by
+  obtain ⟨L, N, R, PW⟩ := C.rhist
+  simp only [evalHQ_eq_evalR]
+  exact hq_mono_core interp G fixed R hs PW q1 q2 h0 h12 h1
+
+/-- …and for the code the check is tied to (/repo with F-C32-1 repaired): NO hypothesis on Sum. -/
 theorem histQuantile_mono (interp : XR → XR → XR → XR) (h : NHist XR) (G : GoodInterp interp) (C : ConsistentHist h)
     (q1 q2 : Rat) (h0 : 0 ≤ q1) (h12 : q1 ≤ q2) (h1 : q2 ≤ 1) :
     ∃ v1 v2, evalHQ interp (histogramQuantile (.fin q1) h) = .fin v1 ∧
-      evalHQ interp (histogramQuantile (.fin q2) h) = .fin v2 ∧ v1 ≤ v2 := by
-  obtain ⟨L, N, R, PW⟩ := C.rhist
-  simp only [evalHQ_eq_evalR]
-  exact hq_mono_core interp G R PW q1 q2 h0 h12 h1
+      evalHQ interp (histogramQuantile (.fin q2) h) = .fin v2 ∧ v1 ≤ v2 :=
+  histQuantileWith_mono repoFixedC32F1 interp h G C (nanSumOk_repo h) q1 q2 h0 h12 h1
 
 theorem histQuantile_mono_full_holds : histQuantile_mono_full := by
   intro interp h G C q1 q2 h0 h12 h1
@@ -378,7 +394,10 @@ theorem histQuantile_in_rank_bucket (interp : XR → XR → XR → XR) (h : NHis
         XR.le (if !h.custom && XR.lt b.lower (.fin 0) && XR.lt (.fin 0) b.upper && h.nNeg = 0 && h.nPos > 0 then .fin 0 else b.lower) (.fin v) = true ∧
         XR.le (.fin v) (if !h.custom && XR.lt b.lower (.fin 0) && XR.lt (.fin 0) b.upper && h.nPos = 0 && h.nNeg > 0 then .fin 0 else b.upper) = true := by
   obtain ⟨L, N, R, _⟩ := C.rhist
-  obtain ⟨pre, b, rem, P, v, ev, lo, hi⟩ := hq_in_bucket_core interp G R q h0 h1
+  show ∃ pre b rem S c N, h.fwd = pre ++ b :: rem ∧ h.count = .fin N ∧ sumCounts (.fin 0) pre = .fin S ∧ b.count = .fin c ∧
+      0 < c ∧ S ≤ q * N ∧ q * N ≤ S + c ∧
+      ∃ v, evalHQ interp (histogramQuantileWith repoFixedC32F1 (.fin q) h) = .fin v ∧ _ ∧ _
+  obtain ⟨pre, b, rem, P, v, ev, lo, hi⟩ := hq_in_bucket_core interp G repoFixedC32F1 R (nanSumOk_repo h) q h0 h1
   refine ⟨pre.map RB.toN, b.toN, rem.map RB.toN, 0 + total pre, b.c, N, ?_, R.count, sumCounts_map pre 0, rfl, P.cpos,
     by have := P.lo; grind, by have := P.hi; grind, v, by rw [evalHQ_eq_evalR]; exact ev, ?_, ?_⟩
   · rw [R.fwd, P.split]; simp
@@ -431,7 +450,7 @@ def exHist : NHist XR :=
     rev := [⟨.fin 2, .fin 4, .fin 3⟩, ⟨.fin 1, .fin 2, .fin 0⟩, ⟨.fin (-1/2), .fin (1/2), .fin 2⟩, ⟨.fin (-2), .fin (-1), .fin 1⟩] }
 
 example : ConsistentHist exHist := by
-  refine ⟨rfl, by simp [exHist], ⟨6, rfl, by decide, by decide +kernel⟩, ?_, ?_⟩
+  refine ⟨rfl, ⟨6, rfl, by decide, by decide +kernel⟩, ?_, ?_⟩
   · intro b hb
     simp [exHist] at hb
     rcases hb with rfl | rfl | rfl | rfl
@@ -443,17 +462,29 @@ example : ConsistentHist exHist := by
       forall_eq, List.Pairwise.nil, and_true, implies_true]
     decide +kernel
 
-/-- Finding F-C32-1 at model level — the hypothesis `Sum ≠ NaN` of `ConsistentHist` is needed: with Sum = NaN the
-    NaN-detection loop overwrites `bucket` with the last bucket of the iteration; q = 1/4 ↦ 3 but q = 5/8 ↦ 5/2. -/
-def nanSumHist : NHist XR :=
+/-- Finding F-C32-1 at model level — for the code AS FOUND (`fixed = false`) the hypothesis `Sum ≠ NaN` of
+    `NanSumOk false` is needed: on this consistent histogram with finite bounds and Sum = NaN the NaN-detection loop
+    overwrites `bucket` with the last bucket of the iteration; q = 1/4 ↦ 3 but q = 5/8 ↦ 5/2.  The repaired code is
+    monotone on it (`histQuantile_mono`). -/
+def nanSumFinHist : NHist XR :=
   { custom := true, count := .fin 4, sum := .nan, nNeg := 0, nPos := 3,
     fwd := [⟨.fin 0, .fin 1, .fin 1⟩, ⟨.fin 1, .fin 2, .fin 1⟩, ⟨.fin 2, .fin 4, .fin 2⟩],
     rev := [⟨.fin 2, .fin 4, .fin 2⟩, ⟨.fin 1, .fin 2, .fin 1⟩, ⟨.fin 0, .fin 1, .fin 1⟩] }
 
 theorem histQuantile_nan_sum_witness :
-    evalHQ linInterp (histogramQuantile (.fin (1/4)) nanSumHist) = .fin 3 ∧
-    evalHQ linInterp (histogramQuantile (.fin (5/8)) nanSumHist) = .fin (5/2) := by
-  constructor <;> decide +kernel
+    ConsistentHist nanSumFinHist ∧
+    evalHQ linInterp (histogramQuantileWith false (.fin (1/4)) nanSumFinHist) = .fin 3 ∧
+    evalHQ linInterp (histogramQuantileWith false (.fin (5/8)) nanSumFinHist) = .fin (5/2) := by
+  refine ⟨⟨rfl, ⟨4, rfl, by decide, by decide +kernel⟩, ?_, ?_⟩, by decide +kernel, by decide +kernel⟩
+  · intro b hb
+    simp [nanSumFinHist] at hb
+    rcases hb with rfl | rfl | rfl
+    · exact ⟨_, _, _, rfl, rfl, rfl, by decide +kernel, by decide +kernel⟩
+    · exact ⟨_, _, _, rfl, rfl, rfl, by decide +kernel, by decide +kernel⟩
+    · exact ⟨_, _, _, rfl, rfl, rfl, by decide +kernel, by decide +kernel⟩
+  · simp only [nanSumFinHist, List.pairwise_cons, List.mem_cons, List.not_mem_nil, or_false, false_imp_iff, forall_eq_or_imp,
+      forall_eq, List.Pairwise.nil, and_true, implies_true]
+    decide +kernel
 
 /-- Finding F-C32-3 at model level — the hypothesis "all bounds finite" is needed: a custom-bucket histogram
     whose only bucket is (-Inf, +Inf] gives NaN for q = 0 and +Inf for q = 1. -/
@@ -495,11 +526,11 @@ theorem quantile_special_cases (almost : XR → XR → Bool) (buckets : List (Bu
   · intro hq
     have : ¬ q < 0 := by grind
     simp [bucketQuantileWith, XR.isNaN, hq, this]
-  · intro hq; simp [histogramQuantile, hq, evalHQ]
+  · intro hq; simp [histogramQuantile, histogramQuantileWith, hq, evalHQ]
   · intro hq
     have : ¬ q < 0 := by grind
-    simp [histogramQuantile, hq, this, evalHQ]
-  · simp [histogramQuantile, XR.lt, XR.isNaN, evalHQ]
+    simp [histogramQuantile, histogramQuantileWith, hq, this, evalHQ]
+  · simp [histogramQuantile, histogramQuantileWith, XR.lt, XR.isNaN, evalHQ]
 
 /-- the statement: fraction ∈ [0,1] and monotone under interval nesting (`fb` = exponential in-bucket fraction,
     any function with values in [0,1] that is monotone in `v`) -/
@@ -579,7 +610,8 @@ theorem fraction_of_quantile (interp fb : XR → XR → XR → XR) (h : NHist XR
     simp only [RB.toN, XR.lt_fin, XR.le_fin, decide_eq_true_eq] at a1 a2
     exact ⟨a1, a2⟩
   simp only [evalHQ_eq_evalR]
-  exact fraction_of_quantile_core interp fb R PW FBm II (fun b hb => (AL b hb).1) (fun b hb => (AL b hb).2) q h0 h1
+  show ∃ v, evalR interp (histogramQuantileWith repoFixedC32F1 (.fin q) h) = .fin v ∧ _
+  exact fraction_of_quantile_core interp fb repoFixedC32F1 R (nanSumOk_repo h) PW FBm II (fun b hb => (AL b hb).1) (fun b hb => (AL b hb).2) q h0 h1
 
 /-- linear interpolation and the linear fraction are inverse to each other; `exHist` has agreeing bounds -/
 example : InverseInterp linInterp (fun l u v => XR.div (XR.sub v l) (XR.sub u l)) := by
@@ -615,6 +647,52 @@ theorem fraction_quantile_custom_zero_witness :
     histogramFraction (fun l u v => XR.div (XR.sub v l) (XR.sub u l)) .ninf (.fin (-5/2)) customZeroHist = .fin 0 ∧
     histogramFraction (fun l u v => XR.div (XR.sub v l) (XR.sub u l)) (.fin (-5)) (.fin 0) customZeroHist = .fin 0 := by
   refine ⟨?_, ?_, ?_⟩ <;> decide +kernel
+/-! ### Finding F-C32-1 (NaN-sum histograms) and its repair
+
+`repoFixedC32F1` (PromModel/Promql/Quantile.lean) says which variant /repo currently is; the theorems
+below are about the switch-parameterised `hqFinish` / `histogramQuantileWith`, so they hold for both. -/
+
+/-- custom-bucket histogram (-Inf,1] (1,2] (2,4] with 1, 1, 2 observations, Count 4, Sum NaN -/
+def nanSumHist : NHist XR :=
+  { custom := true, count := .fin 4, sum := .nan, nNeg := 0, nPos := 3,
+    fwd := [⟨.ninf, .fin 1, .fin 1⟩, ⟨.fin 1, .fin 2, .fin 1⟩, ⟨.fin 2, .fin 4, .fin 2⟩],
+    rev := [⟨.fin 2, .fin 4, .fin 2⟩, ⟨.fin 1, .fin 2, .fin 1⟩, ⟨.ninf, .fin 1, .fin 1⟩] }
+
+def noInterp : XR → XR → XR → XR := fun _ _ _ => .nan
+
+/-- Finding F-C32-1 (the code as found): on `nanSumHist` the quantiles 1/4 and 3/8 are interpolated in
+    the LAST bucket (2,4] instead of their rank buckets (-Inf,1] and (1,2]: 3 and 5/2 — outside the rank
+    bucket and decreasing in q.  The repaired code gives 1 and 3/2. -/
+theorem histQuantile_nansum_last_bucket_witness :
+    evalHQ noInterp (histogramQuantileWith false (.fin (1/4)) nanSumHist) = .fin 3 ∧
+    evalHQ noInterp (histogramQuantileWith false (.fin (3/8)) nanSumHist) = .fin (5/2) ∧
+    evalHQ noInterp (histogramQuantileWith true (.fin (1/4)) nanSumHist) = .fin 1 ∧
+    evalHQ noInterp (histogramQuantileWith true (.fin (3/8)) nanSumHist) = .fin (3/2) := by
+  refine ⟨?_, ?_, ?_, ?_⟩ <;> decide +kernel
+
+/-- Repaired code (`fixes/F-C32-1.patch`): what `HistogramQuantile` returns is determined by the rank
+    bucket and the count reached there; the buckets the iterator has not yielded yet have no influence. -/
+theorem histQuantile_fixed_ignores_later_buckets (h : NHist XR) (fwdDir : Bool) (rank : XR) (bucket : NBucket XR)
+    (count : XR) (remaining : List (NBucket XR)) :
+    hqFinish true h fwdDir rank bucket count remaining = hqFinish true h fwdDir rank bucket count [] := by
+  simp [hqFinish]
+
+/-- …whereas in the code as found they do (same rank bucket, same count, different answer). -/
+theorem histQuantile_unfixed_depends_on_later_buckets_witness :
+    evalHQ noInterp (hqFinish false nanSumHist true (.fin 1) ⟨.ninf, .fin 1, .fin 1⟩ (.fin 1)
+        [⟨.fin 1, .fin 2, .fin 1⟩, ⟨.fin 2, .fin 4, .fin 2⟩]) = .fin 3 ∧
+    evalHQ noInterp (hqFinish false nanSumHist true (.fin 1) ⟨.ninf, .fin 1, .fin 1⟩ (.fin 1) []) = .fin 1 := by
+  constructor <;> decide +kernel
+
+/-- The repair changes nothing for histograms whose Sum is not NaN. -/
+theorem histQuantile_fix_only_nansum (q : XR) (h : NHist XR) (hs : XR.isNaN h.sum = false) :
+    histogramQuantileWith true q h = histogramQuantileWith false q h := by
+  have e : ∀ d r b c rem, hqFinish true h d r b c rem = hqFinish false h d r b c rem := by
+    intro d r b c rem
+    simp [hqFinish, FOps.isNaN, hs]
+  simp [histogramQuantileWith, e]
+
+example : XR.isNaN ({ nanSumHist with sum := .fin 7 } : NHist XR).sum = false := rfl
 
 /-! ## histogram_count / histogram_sum / histogram_avg -/
 
